@@ -336,6 +336,8 @@ def search(prop, tier, seed, runs=None, workers=None, wall_cap=None, log=print, 
         print(ln)
     for r in herr[:3]:
         print(f"HARNESS-ERROR run={r.get('run')}: {r.get('error', '')[-1500:]}")
+    slow = sorted(agg["cpu"], reverse=True)[:3]
+    print(f"slowest runs (cpu_s, run): {slow}")
     print(f"{prop} {tier}: runs={len(results)} completed={n_done} skipped={n_skip} "
           f"violating_runs={len(viol_runs)} new_classes={len(reported)} known={len(known_hit)} "
           f"harness_errors={len(herr)} budget={len(budget)} evals={agg['evals']} wall={wall_s:.0f}s exit={exit_code}")
@@ -344,11 +346,12 @@ def search(prop, tier, seed, runs=None, workers=None, wall_cap=None, log=print, 
 
 def aggregate(prop, results):
     agg = {"evals": 0, "steps": 0, "probes": {}, "sigs": set(), "digests": set(), "samples": [],
-           "nontrivial_runs": 0, "hashseeds": set()}
+           "nontrivial_runs": 0, "hashseeds": set(), "cpu": []}
     for r in results:
         if r.get("status") not in ("ok", "violation"):
             continue
         agg["evals"] += r.get("evals", 0)
+        agg["cpu"].append((r.get("cpu_s", 0.0), r.get("run")))
         agg["steps"] += r.get("steps", 0)
         for k, v in (r.get("probes") or {}).items():
             agg["probes"][k] = agg["probes"].get(k, 0) + v
@@ -404,6 +407,8 @@ def write_evidence(prop, tier, seed, agg, results, wall_s, n_new, known_hit, ski
             "distinct_event_log_digests": len(agg["digests"]),
             "components": getattr(pm, "COMPONENTS", {}),
             "workers": workers,
+            "cpu_s_total": round(sum(c for c, _ in agg["cpu"]), 1),
+            "cpu_s_slowest_runs": [[c, r] for c, r in sorted(agg["cpu"], reverse=True)[:5]],
             "known_findings_hit": sorted(known_hit),
             "exhaustive": False,
         },
